@@ -5,7 +5,7 @@ from __future__ import annotations
 import json
 import os
 
-from vf.cond import cond
+from vf.cond import HarnessAbort, cond
 
 from .common import REPO, Environment, LiquidError, concrete_int, in_alpha
 
@@ -375,7 +375,7 @@ def _lex_inside(src: str, kind: int):
 )
 def i_expr_symbolic(c0: str, kind: int, src: str, N: int) -> bool:
     if _VALIDATION is not None:
-        return False
+        raise HarnessAbort(f"lexer pattern stand-in differs from the compiled pattern: {_VALIDATION}")
     if src[:1] != c0:
         return True
     res = _lex_inside(src, kind)
@@ -446,7 +446,7 @@ def _spans_ok_env(env, src: str) -> bool:
 )
 def d_tiling_symbolic(p: int, suffix: str, N: int, ALPHA: str) -> bool:
     if _STANDIN_VALIDATION is not None:
-        return False
+        raise HarnessAbort(f"lexer pattern stand-in differs from the compiled pattern: {_STANDIN_VALIDATION}")
     return _spans_ok_env(PY_ENV, PREFIXES[p] + suffix)
 
 
@@ -468,4 +468,7 @@ _REAL_ENV = type(PY_ENV).__mro__[1](loader=PY_ENV.loader)  # the same environmen
 )
 def g_pylexer_equiv(p: int, suffix: str) -> bool:
     src = PREFIXES[p] + suffix
-    return _tok_view(PY_ENV, src) == _tok_view(_REAL_ENV, src)
+    if _tok_view(PY_ENV, src) != _tok_view(_REAL_ENV, src):
+        # the stand-in lexer is an assumption of the harness, not part of the property
+        raise HarnessAbort(f"stand-in lexer and real lexer disagree on {src!r}")
+    return True
